@@ -17,12 +17,16 @@ value for that item and must rely on the correspondence run for it.
 """
 import json, os, re, sys
 
+import translate_ctl
 REPO = os.environ.get("NF_REPO", "/repo")
 SRC = os.path.join(REPO, "src")
 
 
 class Unrecognised(Exception):
     pass
+
+
+translate_ctl.Unrecognised = Unrecognised
 
 
 def read(rel):
@@ -707,6 +711,10 @@ def gen():
     v9 = strip_comments(read("variable_versions/v9.rs"))
     ipf = strip_comments(read("variable_versions/ipfix.rs"))
     lib = strip_comments(read("lib.rs"))
+    # ---- control skeleton (translate_ctl.py): one item per recognised shape
+    S = {"lib": lib, "v5": v5, "v7": v7, "v9": v9, "ipf": ipf}
+    for key, f in translate_ctl.ITEMS:
+        attempt(key, (lambda f=f: f(S)))
 
     # ---- protocol tables
     def f_proto():
@@ -968,6 +976,12 @@ def main():
     if old_text != text:
         with open(dest, "w") as f:
             f.write(text)
+    dest_ctl = os.path.join(os.path.dirname(os.path.abspath(dest)), "GeneratedCtl.lean")
+    text_ctl = translate_ctl.emit_lean(norm)
+    old_ctl = open(dest_ctl).read() if os.path.exists(dest_ctl) else None
+    if old_ctl != text_ctl:
+        with open(dest_ctl, "w") as f:
+            f.write(text_ctl)
     if os.environ.get("NF_WRITE_SNAPSHOT") == "1" and not problems:
         json.dump(norm, open(snap, "w"), indent=0, sort_keys=True)
     try:
@@ -976,7 +990,7 @@ def main():
         summary["literals"] = len(lits)
     except Exception as e:
         summary["literals_error"] = repr(e)
-    summary["changed"] = old_text != text
+    summary["changed"] = (old_text != text) or (old_ctl != text_ctl)
     summary["items"] = sorted(out.keys())
     print(json.dumps(summary))
     for k, v in problems.items():
